@@ -15,6 +15,15 @@ CLAIMED = {
     "C14": ("proof", "Finite, loop-free functions (code tables, repeat-offset machine, block/frame/literals/sequence headers) are "
                      "proved against RFC-transcribed spec functions over their entire input domains by Kani contracts; encoder/decoder "
                      "inverse pairs are two-contract lemmas.", "DESIGN.md 3.2, 4 C14"),
+    "C04": ("proof", "Four layers on the real code: R1 (Verus, verbatim bodies, ALL capacities) position arithmetic and drop-front queue semantics; "
+                     "R2 (Kani, real raw pointers, one step from an ARBITRARY invariant state, hence all operation histories) queue semantics, "
+                     "invariant and in-allocation accesses for every operation at fixed capacities; R3/R4 (Kani) the over-copying primitive stays "
+                     "inside the regions it is given and every call site gives it regions inside initialised data / free space; D0 (Verus, all sizes) "
+                     "the callers establish the unsafe preconditions and the overlapping match copy equals the RFC byte-at-a-time copy. "
+                     "R2/R3/R4 are bounded in capacity / region size and listed as bounded.", "DESIGN.md 3.5, 4 C04"),
+    "C05": ("proof", "Q3 (Verus, verbatim execute_sequences, all sequence lists): Ok => a block appends at most 128 KiB, no counter overflow; H1 (Kani, all 2^24 "
+                     "headers): raw/RLE blocks regenerate at most 128 KiB; H4: window <= limit before the window reservation. Composition with the "
+                     "driver loop is argued in DESIGN.md, not machine-checked.", "DESIGN.md 4 C05"),
     "C11": ("proof", "Loop-free/constant-loop Kani proofs over all 256 window descriptors, all single-segment sizes, all limits and every "
                      "<= 20-byte header: exact boundary of the comparison, rejection carries (requested, limit), the reuse path reaches the "
                      "window reservation only with window <= limit (callee precondition via contract stub), clamp to the format maximum, "
